@@ -24,10 +24,13 @@ def run(ctx: Ctx) -> None:
         "polynomial identity; D6.2 every slice assignment on the accept "
         "path writes positions i..j with the source sequence j..i, and a "
         "negative-step slice whose stop could evaluate to -1 is excluded by "
-        "the path condition (the i == 0 special case); D6.3 x is written "
-        "only on the accept path, which returns y+dy, every other path "
-        "returns y; D6.4 the accept guard is dy <= 0 (EA) or h[y2] <= h[y] "
-        "after exactly one increment of h[y] and h[y2] (FEA). D6.5 in "
+        "the path condition (the i == 0 special case); the kernels are "
+        "followed path by path (however the tests are nested): D6.3 a path "
+        "that writes x returns y+dy and reverses exactly once, every other "
+        "path returns y; D6.4 the conditions of every writing path entail "
+        "dy <= 0 (EA) or h[y2] <= h[y] (FEA), those of every other path "
+        "the opposite, after exactly one increment of h[y] and h[y2] "
+        "(FEA). D6.5 in "
         "solve(): both indices are drawn from [0, n-2], ordered by the swap, "
         "the pairs i == j and (0, n-2) are skipped (all weak orderings of "
         "the two draws enumerated), the kernel receives (i, j, n, instance, "
